@@ -830,8 +830,8 @@ def comprehension(interp, st, node, kind):
         leaves = V.leaves_of(val)
         arrs = []
         for l in leaves:
-            if l is None or isinstance(l, str):
-                arrs.append(l)
+            if l is None or isinstance(l, (str, bool, int, float)):
+                arrs.append(l)  # a python constant is shared by every element (e.g. a fixed array dimension)
             else:
                 arrs.append(V.lam_array(k, l))
         return SymList(val, arrs, n)
